@@ -100,17 +100,34 @@ var registry = []HarnessSpec{
 	{Prop: "C06", Pkg: mod + "/internal/decoder/api", PkgName: "api", Func: "VerifC06StreamDecodeCopy", Tier: "quick", Covers: []string{"clean-eof"},
 		Desc:   "StreamDecoder.Decode hands the decoder a private copy of the framed text (never the reusable, pooled read buffer), for every option word",
 		Bounds: "as VerifC17StreamDecode3 (3-byte streams, <= 3 cuts), decoder option word arbitrary"},
+	{Prop: "C06", Pkg: mod, PkgName: "sonic", Func: "VerifT3Replay", Tier: "quick", Covers: []string{"grown", "returned"},
+		Asm: "enc_string", T3: "encbuf", T3Native: "string", ReplayEnv: []string{"VERIF_T3_TYPE=string", "VERIF_T3_KIND=encbuf"},
+		Desc:    "generated string encoder: every store into the output buffer and every window handed to native quote lies inside the buffer's capacity, for every initial len/cap and every legal expansion of the quoted text; the returned len never exceeds cap",
+		Bounds:  "instruction list dumped from the encoder's x86 assembler for string; cap 0..12, len 0..cap, strings of 0..4 bytes, <= 2 out-of-space rounds of quote, grown capacities <= 160",
+		Assumes: []string{"native quote writes at most *dn bytes, reports the count in *dn and returns nb (>= nb bytes written) or ~consumed", "rt.GrowSlice returns a fresh buffer of at least the requested capacity"}},
+	{Prop: "C06", Pkg: mod, PkgName: "sonic", Func: "VerifT3Replay", Tier: "quick", Covers: []string{"grown", "returned"},
+		Asm: "enc_qstring", T3: "encbuf", T3Native: "qstring", ReplayEnv: []string{"VERIF_T3_TYPE=qstring", "VERIF_T3_KIND=encbuf"},
+		Desc:   "as above for a struct with a `,string` string field (double quoting)",
+		Bounds: "as the string program"},
+	{Prop: "C06", Pkg: mod, PkgName: "sonic", Func: "VerifT3Replay", Tier: "quick", Covers: []string{"b64decode"},
+		Asm: "dec_bytes", T3: "b64cap", ReplayEnv: []string{"VERIF_T3_TYPE=bytes", "VERIF_T3_KIND=b64"},
+		Desc:    "generated []byte decoder (_OP_bin): the buffer handed to the base64 decoder is inside its allocation and has room for everything the decoder can produce from the text (no write past the destination, never len > cap)",
+		Bounds:  "instruction list dumped for []byte; string bodies of 1..21 bytes (every length class modulo 4), allocation size symbolic",
+		Assumes: []string{"native vstring frames the string body (contract); the base64 decoder writes at most floor(3*len/4) bytes for len input bytes (6 bits per byte)", "mallocgc returns an object of exactly the requested size"}},
 
 	{Prop: "C18", Pkg: mod + "/internal/encoder/prim", PkgName: "prim", Func: "VerifC18EncodeJsonMarshaler", Tier: "quick", Covers: []string{"marshaler-error", "compact", "novalidate", "validate"},
 		Desc:    "prim.EncodeJsonMarshaler: CompactMarshaler / NoValidateJSONMarshaler have exactly their documented effect, for every 64-bit option word (no other bit matters)",
-		Bounds:  "marshaler output in {\"1\", \" 1\", \"x\"} or failure; option word arbitrary",
+		Bounds:  "marshaler output in {\"1\", \" 1\", \"x\", a string literal with an illegal escape} or failure; option word arbitrary",
 		Assumes: []string{"json.Compact and alg.Valid behave on the three sample outputs as stated by the stubs (true of the real functions; replays use the real ones)"}},
 	{Prop: "C18", Pkg: mod + "/internal/encoder/prim", PkgName: "prim", Func: "VerifC18EncodeTextMarshaler", Tier: "quick", Covers: []string{"marshaler-error", "noquote", "quote"},
 		Desc:   "prim.EncodeTextMarshaler: NoQuoteTextMarshaler only decides whether the text is quoted, for every option word",
 		Bounds: "text \"ab\" or failure; option word arbitrary"},
 	{Prop: "C04", Pkg: mod + "/internal/encoder/prim", PkgName: "prim", Func: "VerifC18EncodeJsonMarshaler", Tier: "quick", Covers: []string{"validate"},
 		Desc:   "invalid output of a user Marshaler is rejected unless validation was explicitly disabled (prim.EncodeJsonMarshaler, every option word)",
-		Bounds: "marshaler output in {\"1\", \" 1\", \"x\"} or failure; option word arbitrary"},
+		Bounds: "marshaler output in {\"1\", \" 1\", \"x\", a string literal with an illegal escape} or failure; option word arbitrary"},
+	{Prop: "C03", Pkg: mod + "/internal/encoder/prim", PkgName: "prim", Func: "VerifC18EncodeJsonMarshaler", Tier: "quick", Covers: []string{"compact"},
+		Desc:   "under the std-compatible configuration (CompactMarshaler) a Marshaler's output is accepted exactly when json.Compact accepts it, and is compacted",
+		Bounds: "marshaler output in {\"1\", \" 1\", \"x\", a string literal with an illegal escape} or failure; option word arbitrary"},
 
 	{Prop: "C12", Pkg: mod + "/internal/encoder", PkgName: "encoder", Func: "VerifC12VMRecurseFlags", Tier: "quick", Covers: []string{"end"},
 		Desc:    "vm.Execute on hand-assembled IR [byte, recurse(pv), eface, recurse, byte]: the pointer-value flag reaches only the one nested call; later nested calls in the same frame get the caller's option word (as the JIT does); natively: VM output == encoding/json on a recursive type with an interface field",
@@ -231,6 +248,9 @@ var registry = []HarnessSpec{
 	{Prop: "C11", Pkg: mod + "/internal/decoder/optdec", PkgName: "optdec", Func: "VerifC11StructEscapedKey", Tier: "quick", Covers: []string{"end"},
 		Desc:   "optdec structDecoder.FromDom on the DOM of {\"a\\/b\":7}: the field lookup uses the unescaped key (as the default decoder and encoding/json do)",
 		Bounds: "one document; every option word without DisallowUnknownFields"},
+	{Prop: "C11", Pkg: mod + "/internal/decoder/optdec", PkgName: "optdec", Func: "VerifC11SliceBytesEscaped", Tier: "quick", Covers: []string{"escaped", "plain"},
+		Desc:   "optdec Node.AsSliceBytes: a base64 string is decoded from its unescaped text (escaped and plain spelling of the same value)",
+		Bounds: "the DOMs of \"YWI\\/Yw==\" and \"YWIvYw==\""},
 	{Prop: "C19", Pkg: mod + "/internal/decoder/optdec", PkgName: "optdec", Func: "VerifC11IntFunctors", Tier: "quick", Covers: []string{"fits", "rejected"},
 		Desc:   "integers convert exactly to every width; out-of-range and non-integer numbers are rejected rather than wrapped or truncated (optdec functors, all payloads)",
 		Bounds: "as VerifC11IntFunctors"},
@@ -276,6 +296,12 @@ var registry = []HarnessSpec{
 	{Prop: "C14", Pkg: mod + "/ast", PkgName: "ast", Func: "VerifC14BigObjectGet", Tier: "quick", Covers: []string{"missing", "indexed", "lazy", "duplicate"},
 		Desc:   "Node.Get on a 17-member object (hash index threshold crossed): first occurrence of the key, lazily loaded or fully loaded (indexed)",
 		Bounds: "17 pairs; first and last key 'x'+{a,b} (duplicate included), 15 fixed keys; strhash uninterpreted (collisions included)"},
+	{Prop: "C14", Pkg: mod + "/ast", PkgName: "ast", Func: "VerifC14LazyHistoryGet", Tier: "quick", Covers: []string{"fresh", "short-prefix", "duplicate"},
+		Desc:   "Node.Get / IndexOrGet on a 20-member lazy object return the first occurrence of a (possibly duplicated) key whatever prefix earlier reads (Get, Index, IndexOrGet) made the node load, and again on a second call",
+		Bounds: "20 pairs; keys 0, 17, 18 are 'x'+{a,b} (duplicates before/after the 17th member included); 8 kinds of earlier read; two lookups + IndexOrGet fallback"},
+	{Prop: "C15", Pkg: mod + "/ast", PkgName: "ast", Func: "VerifC14LazyHistoryGet", Tier: "quick", Covers: []string{"fresh", "duplicate"},
+		Desc:   "lazy loading unobservable: what Get answers does not depend on earlier partial loads",
+		Bounds: "as VerifC14LazyHistoryGet"},
 	{Prop: "C15", Pkg: mod + "/ast", PkgName: "ast", Func: "VerifC14BigObjectGet", Tier: "quick", Covers: []string{"indexed", "lazy"},
 		Desc:   "lazy loading unobservable: Get on a 17-member object answers the same before and after LoadAll",
 		Bounds: "as VerifC14BigObjectGet"},
@@ -288,6 +314,13 @@ var registry = []HarnessSpec{
 	{Prop: "C07", Pkg: mod + "/ast", PkgName: "ast", Func: "VerifC07NodeUnmarshalJSON", Tier: "quick", Covers: []string{"end"},
 		Desc:   "ast.(*Node).UnmarshalJSON never panics on short input (including the empty slice)",
 		Bounds: "all inputs of 0..2 bytes"},
+	{Prop: "C07", Pkg: mod + "/internal/rt", PkgName: "rt", Func: "VerifC07DecodeBase64", Tier: "quick", Covers: []string{"decoded", "rejected"},
+		Desc:    "rt.DecodeBase64 (alternative decoder, []byte destinations) sizes the output buffer for everything the base64 decoder produces: no write past the allocation, no slice-bounds panic",
+		Bounds:  "all texts of 0..7 bytes",
+		Assumes: []string{"base64x.Encoding.DecodeUnsafe is modelled on the text: k symbols + p pads, accepted shapes as in the harness comment (including the library's acceptance of a 2-symbol final quantum with a single '='), 6k/8 bytes written; replays run the real library"}},
+	{Prop: "C11", Pkg: mod + "/internal/rt", PkgName: "rt", Func: "VerifC07DecodeBase64", Tier: "quick", Covers: []string{"decoded", "rejected"},
+		Desc:   "as C07 VerifC07DecodeBase64: the alternative decoder's base64 path neither panics nor overruns where the default decoder returns a value or an error",
+		Bounds: "all texts of 0..7 bytes"},
 	{Prop: "C02", Pkg: mod + "/ast", PkgName: "ast", Func: "VerifC02NewRawTrailing", Tier: "quick", Covers: []string{"valid", "trailing-garbage"},
 		Desc:   "ast.NewRaw accepts exactly one value followed only by JSON spaces",
 		Bounds: "documents '1' + two bytes over {space, newline, x, comma, 1, ]}"},
@@ -295,6 +328,15 @@ var registry = []HarnessSpec{
 	{Prop: "C03", Pkg: mod + "/internal/encoder/alg", PkgName: "alg", Func: "VerifC03IsValidNumber", Tier: "quick", Covers: []string{"valid", "invalid"},
 		Desc:   "alg.IsValidNumber agrees with the real encoding/json.isValidNumber (executed from stdlib SSA)",
 		Bounds: "all strings of length 0..6"},
+	{Prop: "C03", Pkg: mod + "/internal/encoder/alg", PkgName: "alg", Func: "VerifC03InsertRadixSort", Tier: "quick", Covers: []string{"end"},
+		Desc:   "SortMapKeys: insertRadixSort leaves the pairs in ascending bytewise key order and is a permutation keeping each key with its value",
+		Bounds: "0..4 pairs, keys of 0..2 arbitrary bytes, radix position 0..1 (keys agreeing before it)"},
+	{Prop: "C03", Pkg: mod + "/internal/encoder/alg", PkgName: "alg", Func: "VerifC03RadixQsort", Tier: "quick", Covers: []string{"heapsort", "quicksort"},
+		Desc:   "SortMapKeys: radixQsort (3-way radix quicksort, > 11 pairs) and its heapsort fallback sort ascending and permute pairs intact",
+		Bounds: "12..13 pairs: fixed keys and two arbitrary keys of 0..2 bytes at the pivot sample positions"},
+	{Prop: "C03", Pkg: mod + "/internal/encoder/alg", PkgName: "alg", Func: "VerifC03RadixQsort3", Tier: "thorough", Covers: []string{"heapsort", "quicksort"},
+		Desc:   "as VerifC03RadixQsort",
+		Bounds: "12..13 pairs: fixed keys and three arbitrary keys of 0..2 bytes at all three pivot sample positions (110k paths, ~20 min)"},
 
 	{Prop: "C09", Pkg: mod + "/internal/caching", PkgName: "caching", Func: "VerifC09PcacheStep4", Tier: "quick", Covers: []string{"rehash", "norehash"},
 		Desc:   "_ProgramMap.add from an arbitrary valid map: copy-on-write, new key found, old keys keep their values, absent keys stay absent (equal hashes are not equal types), load factor kept",
